@@ -509,21 +509,17 @@ func joinSet(v interface{}, operator string) (string, error) {
 }
 
 func parseOperand(o interface{}, noWrap bool, negation bool) (string, error) {
+	var plain string
 	switch operandType := o.(type) {
 	case string:
-
-		return operandType, nil
+		plain = operandType
 	case float64:
-
-		return fmt.Sprint(operandType), nil
+		plain = fmt.Sprint(operandType)
 	case bool:
-
+		plain = "false"
 		if operandType {
-
-			return "true", nil
+			plain = "true"
 		}
-
-		return "false", nil
 	case map[string]interface{}:
 		expr, expNoWrap, err := buildExpressionEx(operandType, 0)
 
@@ -531,13 +527,12 @@ func parseOperand(o interface{}, noWrap bool, negation bool) (string, error) {
 
 			return expr, err
 		}
+		if negation {
+			return "!(" + expr + ")", nil
+		}
 		if expNoWrap || noWrap {
 
 			return expr, nil
-		}
-
-		if negation {
-			return "!(" + expr + ")", nil
 		}
 
 		return "(" + expr + ")", nil
@@ -545,4 +540,9 @@ func parseOperand(o interface{}, noWrap bool, negation bool) (string, error) {
 
 		return "", fmt.Errorf("operand has an invalid type")
 	}
+	if negation {
+		return "!(" + plain + ")", nil
+	}
+
+	return plain, nil
 }
